@@ -7,7 +7,7 @@ from harness.c13 import translate as TR
 
 ID = 'C13'
 HERE = os.path.dirname(os.path.abspath(__file__))
-CASES = {'quick': 5200, 'thorough': 120000}
+CASES = {'quick': 9000, 'thorough': 160000}
 PARALLEL = True
 PROOF_TIMEOUT = 900
 ALLOWED_AXIOMS = ()
@@ -78,34 +78,70 @@ def facts(src):
 # ------------------------------------------------------------ cases
 from harness.c13 import scopes as SC   # noqa: E402  (no pyramid import at module level there)
 
-POINTS = list(range(1, 20))
+POINTS = list(range(1, 21))
 MAY_FALSE = (4, 10, 11)
-REG_PATTERNS = [[], [[1, 3], [12, 3]], [[3, 3], [19, 3], [16, 2], [12, 1]]]
+REG_PATTERNS = [[], [[1, 3], [12, 3]], [[3, 3], [19, 3], [20, 3], [16, 2], [12, 1]]]
 
 
 def scn(route=0, faults=(), regs=(), sub=None):
     return {'route': int(route), 'faults': [list(f) for f in faults], 'regs': [list(r) for r in regs], 'sub': sub}
 
 
+def single_faults():
+    out = []
+    for p in POINTS:
+        for k in (1, 2, 3, 4):
+            if k == 4 and p not in MAY_FALSE:
+                continue
+            for n in ((0, 1) if p in (16, 18) else (0,)):
+                out.append([p, k, n])
+    return out
+
+
 def enumerate_single():
-    """every single injection point x kind x exception-view availability x route x registration pattern"""
+    """every single injection point x kind x exception-view configuration x route x registration pattern.
+    configuration = mask (bit 0 view for Exception, bit 1 view for HTTPException, bit 2 default
+    exceptionresponse view) and, when a view exists, whether it renders or raises each kind."""
     out = []
     for regs in REG_PATTERNS:
         for route in (0, 1):
-            for evmode in (0, 1, 2, 3, 4):          # none / renders / raises plain / raises http / raises pm
-                ev = 1 if evmode else 0
-                extra = [[19, evmode - 1, 0]] if evmode >= 2 else []
-                out.append({'t': 'req', 'excview': ev, 'scn': scn(route, extra, regs)})
-                for p in POINTS:
-                    if p == 19 and evmode >= 2:
-                        continue
-                    for k in (1, 2, 3, 4):
-                        if k == 4 and p not in MAY_FALSE:
+            for mask in range(8):
+                modes = [[]]
+                if mask & 1:
+                    modes += [[[19, k, 0]] for k in (1, 2, 3)]
+                if mask & 2:
+                    modes += [[[20, k, 0]] for k in (1, 2, 3)]
+                if mask & 3 == 3:
+                    modes += [[[20, 3, 0], [19, k, 0]] for k in (1, 3)]
+                for extra in modes:
+                    out.append({'t': 'req', 'excview': mask, 'scn': scn(route, extra, regs)})
+                    if regs is REG_PATTERNS[0] and (extra or mask in (2, 4, 6)) and route:
+                        continue            # keep the quick tier small: full sweep on the other slices
+                    for f in single_faults():
+                        if any(f[0] == e[0] for e in extra):
                             continue
-                        ns = (0, 1) if p in (16, 18) else (0,)
-                        for n in ns:
-                            out.append({'t': 'req', 'excview': ev, 'scn': scn(route, [[p, k, n]] + extra, regs)})
+                        out.append({'t': 'req', 'excview': mask, 'scn': scn(route, [f] + extra, regs)})
     return out
+
+
+def enumerate_pairs():
+    """thorough tier: every unordered pair of faults in one request x mask in {0,1,7} x route, and every
+    (parent fault, subrequest fault) pair x use_tweens"""
+    fs = single_faults()
+    for mask in (0, 1, 7):
+        for route in (0, 1):
+            for i in range(len(fs)):
+                for j in range(i + 1, len(fs)):
+                    if fs[i][0] == fs[j][0] and fs[i][2] == fs[j][2]:
+                        continue
+                    yield {'t': 'req', 'excview': mask, 'scn': scn(route, [fs[i], fs[j]], REG_PATTERNS[1])}
+    for mask in (0, 3):
+        for tw in (0, 1):
+            for a in fs:
+                for b in fs:
+                    yield {'t': 'req', 'excview': mask,
+                           'scn': scn(1, [a], [[1, 3], [12, 2]],
+                                      {'tweens': tw, 'scn': scn(0, [b], [[3, 3], [12, 3]])})}
 
 
 def enumerate_scopes():
@@ -136,12 +172,17 @@ def rand_scn(rng, depth):
 
 def generate(rng, tier, n):
     fixed = enumerate_scopes() + enumerate_single()
+    if tier == 'thorough':
+        fixed.append({'t': 'soak', 'threads': 16, 'per_thread': 400, 'seed': 13})
     for c in fixed:
         yield c
+    if tier == 'thorough':
+        for c in enumerate_pairs():
+            yield c
     # single fault inside a subrequest, parent healthy
     k = 0
     for tw in (0, 1):
-        for ev in (0, 1):
+        for ev in (0, 1, 6):
             for p in POINTS:
                 for kind in (1, 2, 3):
                     yield {'t': 'req', 'excview': ev,
@@ -150,7 +191,7 @@ def generate(rng, tier, n):
                     k += 1
     m = max(0, n - len(fixed) - k)
     for _ in range(m):
-        yield {'t': 'req', 'excview': rng.choice([0, 1, 1]), 'scn': rand_scn(rng, rng.choice([0, 1, 1, 2, 3]))}
+        yield {'t': 'req', 'excview': rng.choice([0, 1, 1, 2, 3, 4, 5, 6, 7, 7]), 'scn': rand_scn(rng, rng.choice([0, 1, 1, 2, 3]))}
 
 
 def _valid_scn(s, depth):
@@ -181,7 +222,9 @@ def valid(case):
     try:
         if case.get('t') == 'scope':
             return case['name'] in SC.SCOPES and case['site'] in SC.SITES[case['name']]
-        return case.get('t') == 'req' and case['excview'] in (0, 1) and _valid_scn(case['scn'], 0)
+        if case.get('t') == 'soak':
+            return case['threads'] == 16 and 0 < case['per_thread'] <= 2000
+        return case.get('t') == 'req' and case['excview'] in range(8) and _valid_scn(case['scn'], 0)
     except Exception:
         return False
 
@@ -212,8 +255,9 @@ def shrinks(case):
                 yield dict(s, sub=dict(s['sub'], tweens=0))
     for v in sub_variants(case['scn']):
         yield dict(case, scn=v)
-    if case['excview']:
-        yield dict(case, excview=0)
+    for bit in (4, 2, 1):
+        if case['excview'] & bit:
+            yield dict(case, excview=case['excview'] & ~bit)
 
 
 # ------------------------------------------------------------ implementation
@@ -222,17 +266,57 @@ _cache = {}
 
 def setup(tier):
     from harness.c13 import app as A
-    A.get_app(0)
-    A.get_app(1)
+    for m in range(8):
+        A.get_app(m)
 
 
 def _key(case):
     return json.dumps(case, sort_keys=True)
 
 
+def soak(case):
+    """16 threads run the same request scenarios at once, each on its own thread-local stack under its own
+    sentinel frame; every observation must equal the single-threaded one and every thread must end with
+    exactly its sentinel.  A test (reported in evidence), not part of the proof."""
+    import random
+    import threading
+    from pyramid.threadlocal import manager
+    from harness.c13 import app as A
+    rng = random.Random(case['seed'])
+    cases = [{'t': 'req', 'excview': rng.choice(range(8)), 'scn': rand_scn(rng, rng.choice([0, 1, 2]))}
+             for _ in range(case['per_thread'])]
+    expected = [A.run_request(c) for c in cases]
+    nthreads = case['threads']
+    barrier = threading.Barrier(nthreads)
+    res = [None] * nthreads
+
+    def worker(i):
+        order = list(range(len(cases)))
+        random.Random(case['seed'] * 1000 + i).shuffle(order)
+        sentinel = {'request': None, 'registry': None, 'c13-thread': i}
+        manager.push(sentinel)
+        bad = 0
+        barrier.wait()
+        for j in order:
+            if A.run_request(cases[j]) != expected[j]:
+                bad += 1
+        stray = 0 if (len(manager.stack) == 1 and manager.stack[0] is sentinel) else 1
+        manager.pop()
+        res[i] = (bad, stray)
+    ts = [threading.Thread(target=worker, args=(i,)) for i in range(nthreads)]
+    for t in ts:
+        t.start()
+    for t in ts:
+        t.join()
+    done = [r for r in res if r is not None]
+    return [sum(r[0] for r in done), sum(r[1] for r in done), len(done)]
+
+
 def _run(case):
     if case['t'] == 'scope':
         return SC.run_scope(case['name'], case['site'])
+    if case['t'] == 'soak':
+        return soak(case)
     from harness.c13 import app as A
     return A.run_request(case)
 
@@ -259,6 +343,8 @@ def to_wire(case):
         obs = None
     if case['t'] == 'scope':
         return [SC.SCOPES[case['name']][0], [] if obs is None else list(obs)]
+    if case['t'] == 'soak':
+        return [case['threads']]
     ob = []
     if obs is not None and obs[1] >= 0:
         ob = [obs[1], [list(e) for e in obs[2]]]
@@ -268,6 +354,8 @@ def to_wire(case):
 def from_wire(case, raw):
     if raw == [['bad']]:
         return {'model': ['MODEL-BAD'], 'spec': None}
+    if case['t'] == 'soak':
+        return {'model': raw, 'spec': [1, 1]}
     if case['t'] == 'scope':
         paths, cls, jo = raw
         return {'model': sorted(set(tuple(p) for p in paths)), 'spec': [cls, jo[0] if jo else -1]}
@@ -285,6 +373,8 @@ def equiv(case, obs, model):
 
 def spec_holds(case, obs, spec):
     """the extracted judge (Model/C13.v judge / scope_spec), evaluated on the IMPLEMENTATION's observation"""
+    if case['t'] == 'soak':
+        return obs == [0, 0, case['threads']]
     if spec is None or not isinstance(spec, list) or len(spec) != 2:
         return None
     if spec[1] == -1:
@@ -319,6 +409,8 @@ def nontrivial(case, obs):
         return False
     if case['t'] == 'scope':
         return case['site'] != 'none'
+    if case['t'] == 'soak':
+        return True
     return bool(_fired(case, obs)) or any(e[0] in (16, 18) for e in obs[2])
 
 
@@ -327,10 +419,13 @@ def kinds(case, obs):
         return ['harness-exc']
     if case['t'] == 'scope':
         return ['scope:%s' % case['name'], 'scope-exit:%s' % ('raise' if obs[0] else 'return')]
+    if case['t'] == 'soak':
+        return ['soak:%d-threads-x-%d-requests mismatches=%s stray-frames=%s threads-done=%s'
+                % (case['threads'], case['per_thread'], obs[0], obs[1], obs[2])]
     from harness.c13.app import POINT_NAMES
     k = ['outcome:%s' % ('response-from-%s' % POINT_NAMES.get(obs[0][1], obs[0][1]) if obs[0][0] == 'resp'
                          else 'exception-kind-%s' % obs[0][1])]
-    k.append('excview:%s' % ('registered' if case['excview'] else 'none'))
+    k.append('excview-mask:%d' % case['excview'])
     depth, s = 0, case['scn']
     while s['sub']:
         depth, s = depth + 1, s['sub']['scn']
@@ -340,8 +435,10 @@ def kinds(case, obs):
     for f in fired:
         k.append('fault@%s' % POINT_NAMES[f[0]])
         k.append('fault-kind:%s' % {1: 'plain', 2: 'http', 3: 'predicate-mismatch', 4: 'false/denied'}[f[1]])
-    if any(e[0] == 19 for e in obs[2]):
+    if any(e[0] in (19, 20) for e in obs[2]):
         k.append('exception-view-ran')
+    if sum(1 for e in obs[2] if e[0] in (19, 20) and e[1] == 0) > 1:
+        k.append('second-exception-view-tried')
     if any(e[0] == 16 for e in obs[2]):
         k.append('response-callback-ran')
     if any(e[0] == 18 for e in obs[2]):
@@ -357,6 +454,8 @@ def describe(case):
 
 def explain(item):
     c = item['case']
+    if c.get('t') == 'soak':
+        return 'soak: [observations differing from the single-threaded run, threads ending with a stray frame, threads done]'
     if c.get('t') == 'scope':
         return ('scope %s with a failure injected at %s: observed [exit 0=return/1=raise, frames popped from the '
                 "caller's stack, frames left pushed] = %r" % (c['name'], c['site'], item['impl']))
